@@ -63,6 +63,9 @@ pub fn solo<T: Send>(
 	};
 	let arena = Arena::build(&w, spec, &mut key);
 	w.end_setup();
+	// under the writer-preferring policy a phantom writer queues behind every shared hold of the
+	// solo thread (see World::writer_queues)
+	w.set_writer_queues(true);
 	let mut unwound = None;
 	let mut tstats = TStats::default();
 	let r = {
@@ -88,6 +91,18 @@ pub fn solo<T: Send>(
 			}
 		}
 	};
+	if let Some(m) = &unwound {
+		// a panic raised by the library itself escaped an API call: whatever the thread still holds
+		// has no guard that could ever release it
+		let held = w.held(0);
+		if !held.is_empty() && w.g().aborted.is_none() {
+			w.violate(
+				"C05",
+				"hold_leaked_by_library_panic",
+				format!("a call unwound with '{m}' and the thread still holds {:?} with no guard in existence", held),
+			);
+		}
+	}
 	w.begin_setup();
 	drop(arena);
 	let tainted = match ThreadKey::get() {
